@@ -261,8 +261,8 @@ func judge15(e *Entry, ops []Op, res []*OpResult, evs [][]sched.Event) (sig, det
 				}
 				if err.todo {
 					stats["todo-errors-checked"]++
-					if !strings.Contains(r.Err, err.msg) {
-						return "todo-parameter-wrong-message", fmt.Sprintf("%s: the error must carry the documented message %q, got: %s", at, err.msg, r.Err), stats
+					if !lineEndsWith(r.Err, err.msg) {
+						return "todo-parameter-wrong-message", fmt.Sprintf("%s: the error must end with the documented message %q, got: %s", at, err.msg, r.Err), stats
 					}
 				}
 				continue
@@ -372,7 +372,7 @@ func paramSummary(cfg *gen.Cfg) []string {
 
 // enumAlphabet15 is the operation alphabet of the exhaustive C15 family (configuration "cenum").
 var enumAlphabet15 = []Op{
-	{Kind: "GetParam", Name: "p1"}, {Kind: "GetParam", Name: "p2"}, {Kind: "GetParam", Name: "p3"},
+	{Kind: "GetParam", Name: "p1"}, {Kind: "GetParam", Name: "p2"}, {Kind: "GetParam", Name: "p3"}, {Kind: "GetParam", Name: "p4"},
 	{Kind: "Get", Name: "s1"}, {Kind: "Get", Name: "s2"}, {Kind: "Get", Name: "s3"},
 	{Kind: "OvParam", Name: "p1", VKind: "value", V: "real"}, {Kind: "OvParam", Name: "p1", VKind: "param", V: "p3"},
 	{Kind: "OvParam", Name: "p3", VKind: "provider", VI: 42}, {Kind: "OvSvc", Name: "s1", VI: 500},
@@ -403,4 +403,14 @@ func enumHistory15(idx int) []Op {
 		idx /= k
 	}
 	return ops
+}
+
+// lineEndsWith: the (possibly multi-line, prefixed) error text has a line that ends with msg.
+func lineEndsWith(text, msg string) bool {
+	for _, l := range strings.Split(text, "\n") {
+		if strings.HasSuffix(strings.TrimRight(l, " \t\r"), msg) {
+			return true
+		}
+	}
+	return false
 }
